@@ -887,6 +887,16 @@ func ruleDecoderDispatch(c *Ctx) {
 			return
 		}
 		call, ok := isExtOfCallNamed(r, 0, want[enc])
+		if !ok && want[enc] != "" {
+			// the worker the decoder method forwards to, called directly (forwarder rule pins that pairing)
+			worker := "do" + want[enc]
+			if want[enc] == "Gunzip" {
+				worker = "doGunzip"
+			}
+			if wc, ok2 := isExtOfCallNamed(r, 0, worker); ok2 && len(wc.Args) == 1 {
+				call, ok = &Term{Op: "call", Args: []*Term{nilTerm(nil), wc.Args[0]}}, true
+			}
+		}
 		if want[enc] == "" {
 			bad = append(bad, "undocumented encoding "+enc+" is decoded")
 		} else if !ok || !(call.Args[1].Op == "sym" && call.Args[1].Name == "p:data") {
